@@ -53,6 +53,12 @@ def run(tier, v):
     cov["pipeline_states"], cov["pipeline_transitions"] = p1["distinct"], p1["states"]
     cov["states"] += p1["distinct"]
     cov["transitions"] += p1["states"]
+    p2 = vlib.tlc("PipelineRecv", "PipelineRecv.cfg", timeout=3000, heap="16g")
+    if not p2["ok"]:
+        raise vlib.Infra("PipelineRecv (stage level, receiving side) violates %s on the design level\n%s" % (p2["violated"], p2["out"][-3000:]))
+    cov["pipeline_recv_states"] = p2["distinct"]
+    cov["states"] += p2["distinct"]
+    cov["transitions"] += p2["states"]
     # non-vacuity: the same model with the pre-fix WaitGroup hand-shake must violate Termination
     p0 = vlib.tlc("Pipeline", "Pipeline_old.cfg", timeout=1200, heap="8g")
     cov["pipeline_old_waitgroup_violates"] = p0["violated"]
